@@ -37,10 +37,13 @@ func ssaCalleeName(c *ssa.CallCommon) (pkg, name string) {
 		} else if o := f.Object(); o != nil && o.Pkg() != nil {
 			pkg = o.Pkg().Path()
 		}
+		if o, ok := f.Object().(*types.Func); ok && o != nil {
+			return pkg, core.RefName(o)
+		}
 		return pkg, f.Name()
 	}
 	if c.IsInvoke() {
-		return "", c.Method.Name()
+		return "", core.RefName(c.Method)
 	}
 	return "", ""
 }
@@ -84,6 +87,9 @@ func varargValues(v ssa.Value) []ssa.Value {
 func globalLoad(v ssa.Value) string {
 	if u, ok := v.(*ssa.UnOp); ok && u.Op == token.MUL {
 		if g, ok := u.X.(*ssa.Global); ok {
+			if o := g.Object(); o != nil {
+				return core.RefName(o)
+			}
 			return g.Name()
 		}
 	}
@@ -446,7 +452,7 @@ func CLIFileWriter(p *core.Program, r *core.Report, rule string) {
 		if fn == nil || fn.Pkg() == nil {
 			return true
 		}
-		full := fn.Pkg().Path() + "." + fn.Name()
+		full := fn.Pkg().Path() + "." + core.RefName(fn)
 		switch full {
 		case "os.Create":
 			openOK = isParam(c.Args[0], pathP)
@@ -479,7 +485,7 @@ func CLIFileWriter(p *core.Program, r *core.Report, rule string) {
 				openOK = true
 			}
 		}
-		if sel, ok := ast.Unparen(c.Fun).(*ast.SelectorExpr); ok && fn.Pkg().Path() == "os" && (fn.Name() == "Write" || fn.Name() == "WriteString") {
+		if sel, ok := ast.Unparen(c.Fun).(*ast.SelectorExpr); ok && fn.Pkg().Path() == "os" && (core.RefName(fn) == "Write" || core.RefName(fn) == "WriteString") {
 			_ = sel
 			if len(c.Args) == 1 && isParam(c.Args[0], bufP) {
 				writeOK = true
@@ -543,7 +549,7 @@ func StdoutPurity(p *core.Program, r *core.Report, rule string) {
 					pos := p.Pos(in.Pos())
 					isRun := false
 					for _, sp := range cliSpecs {
-						if fd.Obj.Name() == sp.run && fd.Pkg.PkgPath == core.PkgCLI {
+						if core.RefName(fd.Obj) == sp.run && fd.Pkg.PkgPath == core.PkgCLI {
 							isRun = true
 						}
 						// a helper of package cli that a command calls directly: part of the command's own output step,
@@ -575,13 +581,13 @@ func StdoutPurity(p *core.Program, r *core.Report, rule string) {
 
 // stdoutSiteUnreachable recognises the two reviewed situations in which a print on the list path cannot run.
 func stdoutSiteUnreachable(p *core.Program, fd *core.FuncDecl, in ssa.Instruction) (bool, string) {
-	switch fd.Obj.Name() {
+	switch core.RefName(fd.Obj) {
 	case "addObjectsByKind":
 		// the print is in the default branch of the kind switch, which covers the parser's whole kind table
 		sws := findKindSwitches(p)
 		var master, mine *kindSwitch
 		for i := range sws {
-			if sws[i].fd.Obj.Name() == "getEmptyInitializedFieldObjByKind" {
+			if core.RefName(sws[i].fd.Obj) == "getEmptyInitializedFieldObjByKind" {
 				master = &sws[i]
 			}
 			if sws[i].fd == fd {
@@ -809,10 +815,10 @@ func CLIExitChain(p *core.Program, r *core.Report, rule string) {
 		ast.Inspect(fd.Decl.Body, func(n ast.Node) bool {
 			if c, ok := n.(*ast.CallExpr); ok {
 				if fn := core.Callee(info, c); fn != nil && fn.Pkg() != nil {
-					if fn.Pkg().Path() == "os" && fn.Name() == "Exit" {
+					if fn.Pkg().Path() == "os" && core.RefName(fn) == "Exit" {
 						exitCall = c
 					}
-					if fn.Name() == "Execute" && strings.HasSuffix(fn.Pkg().Path(), "spf13/cobra") {
+					if core.RefName(fn) == "Execute" && strings.HasSuffix(fn.Pkg().Path(), "spf13/cobra") {
 						execCall = c
 					}
 				}
@@ -864,10 +870,10 @@ func CLIExitChain(p *core.Program, r *core.Report, rule string) {
 		ast.Inspect(fd.Decl.Body, func(n ast.Node) bool {
 			if c, ok := n.(*ast.CallExpr); ok {
 				if fn := core.Callee(info, c); fn != nil && fn.Pkg() != nil {
-					full := fn.Pkg().Path() + "." + fn.Name()
+					full := fn.Pkg().Path() + "." + core.RefName(fn)
 					switch full {
 					case "os.Exit", "log.Fatal", "log.Fatalf", "log.Fatalln", "syscall.Exit", "runtime.Goexit":
-						ok := fd.Pkg.PkgPath == core.PkgCLI && fd.Obj.Name() == "Execute"
+						ok := fd.Pkg.PkgPath == core.PkgCLI && core.RefName(fd.Obj) == "Execute"
 						r.Check(ok, rule, fd.Key()+": calls "+full, p.Pos(c.Pos()), "the CLI's single exit point", "the process is terminated outside cli.Execute: the exit status no longer reflects the library's error result")
 					}
 				}
@@ -967,7 +973,7 @@ func CLIFlagWiring(p *core.Program, r *core.Report, rule string) {
 				return true
 			}
 			fn := core.Callee(info, c)
-			if fn == nil || !(strings.HasSuffix(fn.Name(), "VarP") || strings.HasSuffix(fn.Name(), "Var")) || len(c.Args) < 3 {
+			if fn == nil || !(strings.HasSuffix(core.RefName(fn), "VarP") || strings.HasSuffix(core.RefName(fn), "Var")) || len(c.Args) < 3 {
 				return true
 			}
 			ue, ok := ast.Unparen(c.Args[0]).(*ast.UnaryExpr)
@@ -979,7 +985,7 @@ func CLIFlagWiring(p *core.Program, r *core.Report, rule string) {
 				return true
 			}
 			found[ctor+"/"+name] = core.ExprStr(ue.X)
-			if strings.HasSuffix(fn.Name(), "VarP") {
+			if strings.HasSuffix(core.RefName(fn), "VarP") {
 				s, _ := core.ConstString(info, c.Args[2])
 				shorts[ctor+"/"+name] = s
 				if tv := info.Types[c.Args[3]]; tv.Value != nil {
@@ -1025,7 +1031,7 @@ func CLIFlagWiring(p *core.Program, r *core.Report, rule string) {
 		cnt := 0
 		ast.Inspect(fd.Decl.Body, func(n ast.Node) bool {
 			if c, ok := n.(*ast.CallExpr); ok {
-				if fn := core.Callee(info, c); fn != nil && fn.Name() == o.with {
+				if fn := core.Callee(info, c); fn != nil && core.RefName(fn) == o.with {
 					call = c
 					cnt++
 				}
@@ -1131,7 +1137,7 @@ func CLIFlagWiring(p *core.Program, r *core.Report, rule string) {
 		got := ""
 		ast.Inspect(fd.Decl.Body, func(n ast.Node) bool {
 			if as, ok := n.(*ast.AssignStmt); ok && len(as.Lhs) == 1 {
-				if f := core.FieldOf(info, as.Lhs[0]); f != nil && f.Name() == s.field {
+				if f := core.FieldOf(info, as.Lhs[0]); f != nil && core.RefName(f) == s.field {
 					rhs := ast.Unparen(as.Rhs[0])
 					if id, isID := rhs.(*ast.Ident); isID {
 						for i := 0; i < sig.Params().Len(); i++ {
@@ -1174,7 +1180,7 @@ func CLIFlagWiring(p *core.Program, r *core.Report, rule string) {
 					return true
 				})
 				if hit {
-					rd = append(rd, f2.Obj.Name())
+					rd = append(rd, core.RefName(f2.Obj))
 				}
 			}
 			sort.Strings(rd)
@@ -1218,7 +1224,7 @@ func DirAPIForwardsToInfosAPI(p *core.Program, r *core.Report, rule string) {
 				infoVars = append(infoVars, info.ObjectOf(id))
 			}
 			if k < sig.Params().Len() {
-				want := "[]string{" + sig.Params().At(k).Name() + "}"
+				want := "[]string{" + core.RefName(sig.Params().At(k)) + "}"
 				if core.ExprStr(c.Args[0]) != want {
 					scanBad = fmt.Sprintf("scan #%d reads %s, not %s", k+1, core.ExprStr(c.Args[0]), want)
 				}
@@ -1266,7 +1272,7 @@ func DirAPIForwardsToInfosAPI(p *core.Program, r *core.Report, rule string) {
 			if len(ret.Results) == 1 {
 				c, ok := ast.Unparen(ret.Results[0]).(*ast.CallExpr)
 				if ok {
-					if fn := core.Callee(info, c); fn != nil && fn.Name() == sp.infoFn && len(c.Args) == len(infoVars) {
+					if fn := core.Callee(info, c); fn != nil && core.RefName(fn) == sp.infoFn && len(c.Args) == len(infoVars) {
 						okArgs := true
 						for i, a := range c.Args {
 							id, isID := ast.Unparen(a).(*ast.Ident)
